@@ -320,6 +320,8 @@ def oracle(spec, case, before, res):
             left = [p for p in after["fs"] if any(under(b_decl[k], p) for k in asked if k in b_decl)]
             if left:
                 bad.append(("directory-left", [], left[:10], "%s left paths of removed products: %s" % (label, left[:6])))
+    elif nested and oc == "other:RuntimeError":
+        pass        # outside wf_dirs: rmtree of a directory that went with the one enclosing it; model = code only
     else:
         changed = [k for k in ("decls", "tags", "fs") if before[k] != after[k]]
         if changed:
@@ -535,6 +537,8 @@ def directed_specs():
         {"shape": "shared-dir-both-doomed", "products": [P("a", "1", [("b", None, False), ("y", None, False)]), P("b", "1", [])],
          "extras": [dict(P("y", "1", []), dir_of=["b", "1"])]},
         {"shape": "nested-dir", "products": [P("a", "1", [("y", None, False), ("b", None, False)]), P("b", "1", [])],
+         "extras": [dict(P("y", "1", []), dir_of=["b", "1"], sub="inner")]},
+        {"shape": "nested-dir-outer-first", "products": [P("a", "1", [("b", None, False), ("y", None, False)]), P("b", "1", [])],
          "extras": [dict(P("y", "1", []), dir_of=["b", "1"], sub="inner")]},
     ]
 
